@@ -930,9 +930,57 @@ theorem src_hub_methods_are_model :
   decide
 
 open ALV.C03.Src in
+/-- `StreamTeeHub.__init__(data, n)`: `super().__init__(data)` / `iter_self = super().__iter__()` /
+    `self._iters = list(it.tee(iter_self, n))` build what the model's `.thub` branch builds: the iterator of
+    `Stream(data)` (`mkSrc`: an existing Stream is moved, an existing hub gives a use; its error is the error of the
+    call), one `itertools.tee` over it, `n` copies of its output stored in the new hub -/
+theorem src_hub_init_is_model (st : St α) (s : ALV.C03.Src α) (n : Nat) :
+    hubInitP ALV.Gen.C03.hubInit st s n =
+      match mkSrc st s with
+      | .error e => some (st, .err e)
+      | .ok (st', it) =>
+        some (⟨(teeOf st'.heap it).1, st'.pool ++ [.hub (List.replicate n (teeOf st'.heap it).2)]⟩, .new st'.pool.length) :=
+  hubInitP_gen st s n
+
+open ALV.C03.Src in
+/-- `thub(data, n)`: `StreamTeeHub(data, n) if isinstance(data, Iterable) else data` is the `.thub` branch of the
+    model, for every state, argument and number of copies (a non-iterable comes back as it is and nothing is built) -/
+theorem src_thub_is_model (f : Nat) (st : St α) (s : ALV.C03.Src α) (n : Nat) :
+    thubP ALV.Gen.C03.progs st s n = step f st (.thub s n) :=
+  stepP_thub f st s n
+
+open ALV.C03.Src in
+/-- `Stream.__init__(*dargs)`: the tree `if len(dargs) == 0: raise TypeError` / `elif len(dargs) == 1:` (`iter(dargs[0])`
+    when iterable, else `it.repeat(dargs[0])`) / `else:` (all iterable: `it.chain(*[iter(arg) for arg in dargs])`, none:
+    `it.cycle(dargs)`, both kinds: `raise TypeError`) reads every argument list the way the call layer's `elabArgs` does
+    (`Stream(...)`, `x.append(...)`: `elabCall`); the iterator term of the result is `mkSrc` (the `.new` / `.append` /
+    `.thub` branches of `step`) -/
+theorem src_init_is_model : @initP α ALV.Gen.C03.init = elabArgs := by
+  funext args; exact initP_gen args
+
+open ALV.C03.Src in
+/-- `lazy_itertools.tee(x, n)` on an object of the pool: `isinstance(data, (Stream, Iterator))` holds, and
+    `tuple(Stream(cp) for cp in it.tee(data, n))` is the `.tee` branch of the model (the iterator of the object is
+    taken — a Stream is moved, a hub gives a use —, one `itertools.tee` over it, `n` new Streams on its output) -/
+theorem src_tee_is_model (f : Nat) (st : St α) (i n : Nat) :
+    teeP ALV.Gen.C03.progs st i n = step f st (.tee i n) :=
+  stepP_tee f st i n
+
+open ALV.C03.Src in
+/-- the call layer's reading of `lazy_itertools.tee` comes from the source too: the else arm on a non-iterable
+    (`tuple(data for unused in xrange(n))`: `n` times the same object, nothing built) and the default `n=2` -/
+theorem src_tee_call_is_model (v : α) (k : Int) (d : CArg α) :
+    elabCall (.tee (.scalar v) (some (.int k))) = .ret (teeScalarP ALV.Gen.C03.tee v k.toNat) ∧
+    sigDefault ALV.Gen.C03.sigs "lazy_itertools.tee" "n" = some (some "2") ∧
+    elabCall (.tee d none) = elabCall (.tee d (some (.int 2))) :=
+  ⟨rfl, by decide, rfl⟩
+
+open ALV.C03.Src in
 /-- **the model's step function is the interpretation of the regenerated programs**, for every fuel, state and
-    operation (take / peek / skip / limit / append / map / filter / copy on Streams and StreamTeeHubs come from the
-    programs; the constructor, `next(iter(x))`, `list(x)`, `thub`, `tee` are the hand-written branches on both sides) -/
+    operation (take / peek / skip / limit / append / map / filter / copy on Streams and StreamTeeHubs, `thub`,
+    `StreamTeeHub.__init__` and `lazy_itertools.tee` come from the programs; `next(iter(x))`, `list(x)` and the
+    constructor on an already elaborated argument (`mkSrc`; the argument-list rules of `Stream.__init__` are
+    `src_init_is_model`) are the hand-written branches on both sides) -/
 theorem src_step_is_model : @stepP α ALV.Gen.C03.progs = step := by
   funext f st op; exact stepP_gen f st op
 
